@@ -10,12 +10,16 @@
     CFG rot keep interval levelHex                   → ok
     READ t fileHex endpos length snap                → nil | nilopen | nilread | data before next textHex
         snap: `-` or  relpathHex:f:contentHex / relpathHex:d:size , …
+    FILES listing                                    → panic | files nameHex:size,…      (GetLogFiles)
+        listing: `-` or  nameHex:f:size / nameHex:d:size , …   (entries of <home>/logs in ReadDir order)
+    PATH                                             → none | path <hex of the '/'-joined segments>   (GetLogFilePath)
     DUMP                                             → nameHex=initHex|chunk|chunk;…   (chunk: l.hex n.hex x.hex)
     RESOLVE homeHex fileHex                          → none | seg/seg/…(hex, joined)   (stateless)
     YMD unit / UNITOF hex                            → calendar functions (stateless)
 -/
 import Golib.Logger.Model
 import Golib.Logger.CalReal
+import Golib.Logger.Files
 import Driver.Common
 
 open Logger Drv
@@ -46,6 +50,18 @@ def parseSnapEntry (s : String) : Option (Bytes × Entry) :=
     let sz ← parseInt sz
     pure (p, .dir sz)
   | _ => none
+
+def parseDirEnt (s : String) : Option DirEnt :=
+  match s.splitOn ":" with
+  | [n, k, sz] => do
+    let n ← ofHex n
+    let sz ← parseInt sz
+    pure ⟨n, k == "d", sz⟩
+  | _ => none
+
+def showFiles : Option (List (Bytes × Int)) → String
+  | none => "panic"
+  | some out => "files " ++ listOf (fun p => hexOf p.1 ++ ":" ++ toString p.2) out
 
 def showChunk : Chunk → String
   | .line t => "l." ++ hexOf t
@@ -121,6 +137,14 @@ def answer (st : Option St) (line : String) : Option St × String :=
         | (s', .read r) => (s', showRead r)
         | (s', _) => (s', "bad-op")
     | _, _, _, _, _ => (st, "bad-op")
+  | ["FILES", listing] =>
+    match parseList parseDirEnt listing with
+    | some ents => withSt st fun s => (s, showFiles (logFiles s.conf.logID s.conf.oname ents))
+    | none => (st, "bad-op")
+  | ["PATH"] => withSt st fun s =>
+      (s, match s.cur with
+          | none => "none"
+          | some n => "path " ++ hexOf (joinSlash (logFilePath s.home n)))
   | ["DUMP"] => withSt st fun s => (s, showDir s.dir)
   | ["RESOLVE", home, file] =>
     match ofHex home, ofHex file with
